@@ -5,6 +5,7 @@ import GoframeModel.Lemmas.Group
 import GoframeModel.Props.C04
 import GoframeModel.Ops.Agg
 import GoframeModel.Lemmas.GroupTotal
+import GoframeModel.Props.C16Rounding
 /-
   C05 — grouped Sum/Mean/Count equal the per-group arithmetic and conserve totals.
   Arithmetic is exact (finite floats are rationals); rounding is outside the model (DESIGN §3.4).
@@ -129,5 +130,16 @@ theorem frame_sum_is_total (ω : Oracle) (d : List Cell)
   rw [GroupTotalLemmas.asFloats_eq ω d h]
   rfl
 
+
+open Rounding in
+/-- conservation in float64: `grouped_sums_add_up` / `gsum_conserves` above are exact statements about the
+arithmetic sums. The code adds in float64; for every way of splitting a column `xs` into groups `gs`, the float
+sums of the groups, themselves added up in float, stay within the stated bound of the float sum of the column
+(u = 2⁻⁵³ for float64). Proof in `Props/C16Rounding.lean`. -/
+theorem grouped_float_sums_close (fl : Rat → Rat) (u : Rat) (hu : 0 ≤ u) (h : RelErr fl u) (xs : List Rat)
+    (gs : List (List Rat)) (hp : gs.flatten.Perm xs) :
+    rabs (fsum fl (gs.map (fsum fl)) - fsum fl xs) ≤
+      ((1 + u) ^ gs.length * (1 + u) ^ xs.length - 1) * absSum xs + ((1 + u) ^ xs.length - 1) * absSum xs :=
+  C16R.grouped_fsum_close fl u hu h xs gs hp
 
 end Goframe.C05
